@@ -22,6 +22,7 @@ let act_of (x : Sx.t) : act =
   | "cancel", [] -> ACancel
   | "cancel", [_] -> ACancel    (* cancelled through a derived context that replaced the request's: the same event *)
   | "wrap", [] -> AWrapRW
+  | "fl", [] -> AFlush
   | "panic", [v] -> APanic (nat_of_int (Sx.int_of v))
   | "maprh", [k] -> AMapRH (nat_of_int (Sx.int_of k))
   | "sub", [] -> ASub
